@@ -200,3 +200,67 @@ def check_sched(sim, circuit, strip_forks):
                     out.append(('S4:level-write-read-disjoint', f'level {lv}: op {t1[1]} writes memory that op {t2[1]} reads in the same level'))
                     return out
     return out
+
+
+def check_live_hypotheses(sim, circuit, strip_forks):
+    """the memory-map hypotheses A2-A5 of the composition contract (contracts.logic_sim_c.composition_config) for the concrete
+    liveness  LIVE(x, k) := x is produced before k (source slot, or output of an op < k, or stripped alias of such) and x is read by
+    an op >= k or captured.  A3 holds by construction; A2 needs topological order; A4 is NoClobber; A5 keeps live slots off the
+    scratch rows.  -> list of (clause, message)"""
+    out = []
+    ops = np.asarray(sim.ops)
+    cl = np.asarray(sim.c_locs)
+    n = len(ops)
+    zero, tmp, tmp2 = sim.zero_idx, sim.tmp_idx, sim.tmp2_idx
+    prod, _ = producers(ops)
+    stem = {}
+    if strip_forks:
+        for f in circuit.forks.values():
+            l = f.ins[0] if len(f.ins) > 0 else None
+            while l is not None and l.driver.kind == '__fork__' and len(l.driver.ins) > 0 and l.driver.ins[0] is not None:
+                l = l.driver.ins[0]
+            if l is None:
+                continue
+            for ol in f.outs:
+                if ol is not None:
+                    stem[ol.index] = l.index
+    root = lambda x: stem.get(x, x)
+    last_read = {}
+    for k, op in enumerate(ops):
+        for x in op[2:6]:
+            last_read[int(x)] = k
+    captured = set()
+    for i, node in enumerate(circuit.s_nodes):
+        if len(node.ins) > 0 and node.ins[0] is not None:
+            captured.add(node.ins[0].index)          # (the output slot itself is an alias of this line, M3)
+
+    def produced_at(x):
+        x = int(x)
+        if x == zero or x >= sim.ppi_offset:
+            return -1
+        r = root(x)
+        return prod.get(r, None)
+
+    def live(x, k):
+        p = produced_at(x)
+        if p is None or p >= k:
+            return False
+        return last_read.get(x, -1) >= k or x in captured or x == zero
+    slots = [x for x in range(sim.ppo_offset) if cl[x] >= 0 and x not in (tmp, tmp2)]
+    for k, op in enumerate(ops):
+        o = int(op[1])
+        for x in op[2:6]:
+            if not live(int(x), k) and produced_at(int(x)) is not None and produced_at(int(x)) >= k:
+                out.append(('A2:operands-live', f'op {k} reads slot {int(x)} before it is produced'))
+                return out
+        for x in slots:
+            if live(x, k) and cl[x] in (cl[tmp], cl[tmp2]):
+                out.append(('A5:live-slot-on-scratch-row', f'slot {x} is live at op {k} and shares its location with a scratch slot'))
+                return out
+            if live(x, k + 1) and cl[x] == cl[o] and not (x == o or root(x) == root(o)) and o != tmp:
+                out.append(('A4:no-clobber', f'op {k} overwrites the location of slot {x}, which is still live'))
+                return out
+            if live(x, k + 1) and o == tmp and cl[x] == cl[tmp]:
+                out.append(('A4:no-clobber', f'the result of op {k} (node without output line) lands on the location of live slot {x}'))
+                return out
+    return out
